@@ -34,6 +34,8 @@ void ambientRestore(bool withLocale);
 struct AmbientReads {
     long clock = 0, random = 0, env = 0, sleep = 0, lock = 0, lockContended = 0;
     long nonReentrant = 0;  // strtok, localtime, gmtime, asctime, ctime, strerror, setlocale
+    long hiddenStatic = 0;  // of those, the ones the C library documents as MT-Unsafe (all but strerror)
+    const char *lastHiddenStatic = "";
     long total() const { return clock + random + env + sleep + lock + nonReentrant; }
 };
 void ambientResetPerRun();
